@@ -938,6 +938,15 @@ class ConstraintChain:
         """
         self.constraints = constraints
 
+    def __repr__(self) -> str:
+        """Address-free representation.
+
+        A chain is stored in HolographicValue.constraints, and str() of such a value is
+        hashed by the target router (routing.compute_value_hash) and printed by the
+        markdown projection; the default object repr would put a memory address there.
+        """
+        return f"ConstraintChain({self.constraints!r})"
+
     @classmethod
     def _split_parts(cls, constraint_str: str) -> list[str]:
         """Split a constraint string into individual constraint tokens.
